@@ -8,4 +8,5 @@ import (
 	_ "verif/checks/c04"
 	_ "verif/checks/c05"
 	_ "verif/checks/c08"
+	_ "verif/checks/cachex"
 )
